@@ -500,6 +500,40 @@ else:
         # Default: return as-is for unknown types
         return value
 
+    _BOUND_CONSTRAINTS = (
+        ("ge", lambda v, b: v >= b, "greater than or equal to"),
+        ("gt", lambda v, b: v > b, "greater than"),
+        ("le", lambda v, b: v <= b, "less than or equal to"),
+        ("lt", lambda v, b: v < b, "less than"),
+    )
+
+    def _check_constraints(name: str, value: Any, constraints: Dict[str, Any]) -> None:
+        """Enforce the Field(ge/gt/le/lt/min_length/max_length) constraints Pydantic enforces."""
+        if value is None or not constraints:
+            return
+        if isinstance(value, (int, float)) and not isinstance(value, bool):
+            for key, holds, words in _BOUND_CONSTRAINTS:
+                bound = constraints.get(key)
+                if bound is not None and not holds(value, bound):
+                    raise ValidationError(
+                        f"value must be {words} {bound}", name, "constraint_error"
+                    )
+        if hasattr(value, "__len__"):
+            min_length = constraints.get("min_length")
+            if min_length is not None and len(value) < min_length:
+                raise ValidationError(
+                    f"value must have at least {min_length} items",
+                    name,
+                    "constraint_error",
+                )
+            max_length = constraints.get("max_length")
+            if max_length is not None and len(value) > max_length:
+                raise ValidationError(
+                    f"value must have at most {max_length} items",
+                    name,
+                    "constraint_error",
+                )
+
     class Field:  # type: ignore[no-redef]
         """Field descriptor for model attributes."""
 
@@ -729,6 +763,11 @@ else:
                             original_annotation=annotation,
                         )
                         values[name] = validated_value
+
+                        # Field(ge=..., le=..., ...) constraints, as Pydantic enforces them
+                        field = self.__class__.__model_fields__.get(name)
+                        if field is not None:
+                            _check_constraints(name, validated_value, field.kwargs)  # type: ignore[attr-defined]
 
             except ValidationError:
                 # Re-raise validation errors - don't suppress them
